@@ -1127,4 +1127,427 @@ theorem resolveLeaves_id (env : Env) : ∀ ls : List (List Str × Val),
     rw [resolveLeaves, h (p, v) (List.mem_cons_self ..),
       resolveLeaves_id env rest (fun l hl => h l (List.mem_cons_of_mem _ hl))]
 
+
+/-! # audit issue 2: `lookupPath`, `unflatten` on incomparable leaf paths, `flatten`, unique keys -/
+
+/-- neither path is a prefix of the other -/
+def Incomp (p q : List Str) : Prop := ¬ p <+: q ∧ ¬ q <+: p
+
+theorem Incomp.symm {p q : List Str} (h : Incomp p q) : Incomp q p := ⟨h.2, h.1⟩
+
+theorem incomp_cons_same {k : Str} {p q : List Str} (h : Incomp (k :: p) (k :: q)) : Incomp p q := by
+  constructor
+  · intro hp; exact h.1 ((List.prefix_cons_inj k).2 hp)
+  · intro hp; exact h.2 ((List.prefix_cons_inj k).2 hp)
+
+theorem lookupPath_cons_cons (k k2 : Str) (ks : List Str) (m : KVs) :
+    lookupPath (k :: k2 :: ks) m = match m.lookup k with
+      | some (.map sub) => lookupPath (k2 :: ks) sub
+      | _ => none := rfl
+
+theorem lookupPath_nil_kvs : ∀ p : List Str, lookupPath p .nil = none
+  | [] => rfl
+  | [_] => rfl
+  | _ :: _ :: _ => rfl
+
+/-- inserting at `q` does not disturb any path incomparable with `q` -/
+theorem lookupPath_insert_other : ∀ (q p : List Str) (w : Val) (m : KVs), Incomp p q →
+    lookupPath p (insertPath q w m) = lookupPath p m
+  | [], p, w, m, _ => by simp [insertPath]
+  | [k], p, w, m, h => by
+    match p, h with
+    | [], h => exact absurd (List.nil_prefix) h.1
+    | [k'], h =>
+      have hne : k' ≠ k := fun e => h.1 (by rw [e]; exact List.prefix_refl _)
+      simp only [insertPath, lookupPath]
+      exact KVs.lookup_set_other w hne m
+    | k' :: k2 :: ks, h =>
+      have hne : k' ≠ k := fun e => h.2 (by rw [e]; exact ⟨k2 :: ks, rfl⟩)
+      simp only [insertPath, lookupPath_cons_cons]
+      rw [KVs.lookup_set_other w hne m]
+  | k :: q2 :: qs, p, w, m, h => by
+    match p, h with
+    | [], h => exact absurd (List.nil_prefix) h.1
+    | [k'], h =>
+      have hne : k' ≠ k := fun e => h.1 (by rw [e]; exact ⟨q2 :: qs, rfl⟩)
+      simp only [lookupPath]
+      rw [insertPath]
+      split
+      · exact KVs.lookup_set_other _ hne m
+      · rfl
+      · exact KVs.lookup_set_other _ hne m
+    | k' :: p2 :: ps, h =>
+      by_cases hk : k' = k
+      · subst hk
+        have h' : Incomp (p2 :: ps) (q2 :: qs) := incomp_cons_same h
+        rw [insertPath]
+        split
+        · rename_i sub hs
+          rw [lookupPath_cons_cons, lookupPath_cons_cons, KVs.lookup_set_same, hs]
+          exact lookupPath_insert_other (q2 :: qs) (p2 :: ps) w sub h'
+        · rfl
+        · rename_i hs
+          rw [lookupPath_cons_cons, lookupPath_cons_cons, KVs.lookup_set_same, hs]
+          simp only
+          rw [lookupPath_insert_other (q2 :: qs) (p2 :: ps) w .nil h', lookupPath_nil_kvs]
+      · rw [insertPath]
+        split
+        · rw [lookupPath_cons_cons, lookupPath_cons_cons, KVs.lookup_set_other _ hk m]
+        · rfl
+        · rw [lookupPath_cons_cons, lookupPath_cons_cons, KVs.lookup_set_other _ hk m]
+
+/-- inserting at `q` can go all the way down: no proper prefix of `q` holds a non-map value -/
+def Passable : List Str → KVs → Prop
+  | [], _ => True
+  | [_], _ => True
+  | k :: k2 :: ks, m =>
+    match m.lookup k with
+    | some (.map sub) => Passable (k2 :: ks) sub
+    | some _ => False
+    | none => True
+
+theorem Passable_cons_cons (k k2 : Str) (ks : List Str) (m : KVs) :
+    Passable (k :: k2 :: ks) m = match m.lookup k with
+      | some (.map sub) => Passable (k2 :: ks) sub
+      | some _ => False
+      | none => True := rfl
+
+theorem passable_nil : ∀ q : List Str, Passable q .nil
+  | [] => trivial
+  | [_] => trivial
+  | _ :: _ :: _ => by simp [Passable_cons_cons, KVs.lookup]
+
+theorem insertPath_cons_cons (k k2 : Str) (ks : List Str) (v : Val) (m : KVs) :
+    insertPath (k :: k2 :: ks) v m = match m.lookup k with
+      | some (.map sub) => m.set k (.map (insertPath (k2 :: ks) v sub))
+      | some _ => m
+      | none => m.set k (.map (insertPath (k2 :: ks) v .nil)) := rfl
+
+theorem lookupPath_insert_same : ∀ (q : List Str) (w : Val) (m : KVs), q ≠ [] → Passable q m →
+    lookupPath q (insertPath q w m) = some w
+  | [], _, _, h, _ => absurd rfl h
+  | [k], w, m, _, _ => by simp only [insertPath, lookupPath]; exact KVs.lookup_set_same k w m
+  | k :: k2 :: ks, w, m, _, hp => by
+    rw [Passable_cons_cons] at hp
+    rw [insertPath_cons_cons]
+    cases hl : m.lookup k with
+    | none =>
+      simp only [hl]
+      rw [lookupPath_cons_cons, KVs.lookup_set_same]
+      exact lookupPath_insert_same (k2 :: ks) w .nil (by simp) (passable_nil _)
+    | some x =>
+      rw [hl] at hp
+      cases x with
+      | map sub =>
+        simp only [hl]
+        rw [lookupPath_cons_cons, KVs.lookup_set_same]
+        exact lookupPath_insert_same (k2 :: ks) w sub (by simp) hp
+      | _ => exact absurd hp (by simp)
+
+theorem passable_insert : ∀ (p q : List Str) (w : Val) (m : KVs), Incomp p q → Passable q m →
+    Passable q (insertPath p w m)
+  | [], q, w, m, _, hq => by simpa [insertPath] using hq
+  | _ :: _, [], _, _, _, _ => trivial
+  | _ :: _, [_], _, _, _, _ => trivial
+  | [k'], k :: q2 :: qs, w, m, h, hq => by
+    have hne : k ≠ k' := fun e => h.1 (by rw [e]; exact ⟨q2 :: qs, rfl⟩)
+    rw [Passable_cons_cons] at hq ⊢
+    simp only [insertPath]
+    rw [KVs.lookup_set_other w hne m]
+    exact hq
+  | k' :: p2 :: ps, k :: q2 :: qs, w, m, h, hq => by
+    rw [insertPath_cons_cons]
+    by_cases hk : k = k'
+    · subst hk
+      have h' : Incomp (p2 :: ps) (q2 :: qs) := incomp_cons_same h
+      rw [Passable_cons_cons] at hq
+      cases hl : m.lookup k with
+      | none =>
+        simp only [hl]
+        rw [Passable_cons_cons, KVs.lookup_set_same]
+        exact passable_insert (p2 :: ps) (q2 :: qs) w .nil h' (passable_nil _)
+      | some x =>
+        rw [hl] at hq
+        cases x with
+        | map sub =>
+          simp only [hl]
+          rw [Passable_cons_cons, KVs.lookup_set_same]
+          exact passable_insert (p2 :: ps) (q2 :: qs) w sub h' hq
+        | _ => exact absurd hq (by simp)
+    · have key : ∀ x, Passable (k :: q2 :: qs) (m.set k' x) := by
+        intro x
+        rw [Passable_cons_cons, KVs.lookup_set_other x hk m]
+        rw [Passable_cons_cons] at hq
+        exact hq
+      cases hl : m.lookup k' with
+      | none => simp only [hl]; exact key _
+      | some x => cases x <;> simp only [hl] <;> first | exact key _ | exact hq
+
+abbrev Leaf := List Str × Val
+
+def insertAll (T : KVs) (L : List Leaf) : KVs := L.foldl (fun m kv => insertPath kv.1 kv.2 m) T
+
+theorem insertAll_other (p : List Str) : ∀ (L : List Leaf) (T : KVs), (∀ a ∈ L, Incomp p a.1) →
+    lookupPath p (insertAll T L) = lookupPath p T
+  | [], _, _ => rfl
+  | a :: rest, T, h => by
+    simp only [insertAll, List.foldl_cons]
+    have := insertAll_other p rest (insertPath a.1 a.2 T) (fun b hb => h b (List.mem_cons_of_mem _ hb))
+    simp only [insertAll] at this
+    rw [this, lookupPath_insert_other a.1 p a.2 T (h a (List.mem_cons_self ..))]
+
+theorem insertAll_lookup : ∀ (L : List Leaf) (T : KVs), L.Pairwise (fun a b => Incomp a.1 b.1) →
+    (∀ a ∈ L, a.1 ≠ []) → (∀ a ∈ L, Passable a.1 T) → ∀ a ∈ L, lookupPath a.1 (insertAll T L) = some a.2
+  | [], _, _, _, _, a, ha => by simp at ha
+  | b :: rest, T, hpw, hne, hpass, a, ha => by
+    rw [List.pairwise_cons] at hpw
+    have hstep : insertAll T (b :: rest) = insertAll (insertPath b.1 b.2 T) rest := rfl
+    rw [hstep]
+    rcases List.mem_cons.1 ha with rfl | har
+    · rw [insertAll_other a.1 rest _ (fun c hc => hpw.1 c hc)]
+      exact lookupPath_insert_same a.1 a.2 T (hne a (List.mem_cons_self ..)) (hpass a (List.mem_cons_self ..))
+    · refine insertAll_lookup rest _ hpw.2 (fun c hc => hne c (List.mem_cons_of_mem _ hc)) ?_ a har
+      intro c hc
+      exact passable_insert b.1 c.1 b.2 T (hpw.1 c hc) (hpass c (List.mem_cons_of_mem _ hc))
+
+/-- `maps.Unflatten` of ANY list of leaves with non-empty, pairwise prefix-incomparable key paths — in any order —
+holds exactly each leaf's value under its path -/
+theorem unflatten_lookup (L : List Leaf) (hpw : L.Pairwise (fun a b => Incomp a.1 b.1)) (hne : ∀ a ∈ L, a.1 ≠ []) :
+    ∀ a ∈ L, lookupPath a.1 (unflatten L) = some a.2 :=
+  insertAll_lookup L .nil hpw hne (fun a _ => passable_nil a.1)
+
+/-! ## `flatten`: the leaf paths of a tree with unique keys -/
+
+mutual
+/-- keys are unique in every map reachable through maps (what Go maps guarantee) -/
+def HN : Val → Prop
+  | .map m => HNK m
+  | _ => True
+def HNK : KVs → Prop
+  | .nil => True
+  | .cons k v r => k ∉ r.keys ∧ HN v ∧ HNK r
+end
+
+/-- leaves below one entry -/
+def leavesOf (pfx : List Str) (k : Str) (v : Val) : List Leaf :=
+  match v with
+  | .map m => if m.isEmpty then [(pfx ++ [k], v)] else flatten (pfx ++ [k]) m
+  | _ => [(pfx ++ [k], v)]
+
+theorem flatten_cons (pfx : List Str) (k : Str) (v : Val) (rest : KVs) :
+    flatten pfx (.cons k v rest) = leavesOf pfx k v ++ flatten pfx rest := by
+  cases v <;> simp only [flatten, leavesOf]
+
+theorem flatten_pfx : ∀ (m : KVs) (pfx : List Str),
+    flatten pfx m = (flatten [] m).map (fun a => (pfx ++ a.1, a.2))
+  | .nil, _ => by simp [flatten]
+  | .cons k v rest, pfx => by
+    rw [flatten_cons, flatten_cons, List.map_append, ← flatten_pfx rest pfx]
+    congr 1
+    cases v with
+    | map sub =>
+      simp only [leavesOf]
+      by_cases he : sub.isEmpty = true
+      · simp [he]
+      · simp only [he]
+        rw [flatten_pfx sub (pfx ++ [k]), flatten_pfx sub ([] ++ [k])]
+        simp [List.map_map, Function.comp_def]
+    | _ => simp [leavesOf]
+
+theorem incomp_of_head_ne {k k' : Str} {p q : List Str} (h : k ≠ k') : Incomp (k :: p) (k' :: q) := by
+  constructor
+  · rintro ⟨t, ht⟩; simp at ht; exact h ht.1
+  · rintro ⟨t, ht⟩; simp at ht; exact h ht.1.symm
+
+theorem incomp_cons_iff {k : Str} {p q : List Str} (h : Incomp p q) : Incomp (k :: p) (k :: q) := by
+  constructor
+  · intro hp; exact h.1 ((List.prefix_cons_inj k).1 hp)
+  · intro hp; exact h.2 ((List.prefix_cons_inj k).1 hp)
+
+theorem lookupPath_cons_head (k : Str) (v : Val) (rest : KVs) : ∀ p : List Str,
+    lookupPath (k :: p) (.cons k v rest) = match p with
+      | [] => some v
+      | k2 :: ks => (match v with | .map sub => lookupPath (k2 :: ks) sub | _ => none)
+  | [] => by simp [lookupPath, KVs.lookup]
+  | k2 :: ks => by
+    rw [lookupPath_cons_cons]; simp only [KVs.lookup, if_true]
+    cases v <;> rfl
+
+theorem lookupPath_cons_skip {k k' : Str} (h : k ≠ k') (v : Val) (rest : KVs) : ∀ p : List Str,
+    lookupPath (k' :: p) (.cons k v rest) = lookupPath (k' :: p) rest
+  | [] => by simp [lookupPath, KVs.lookup, h]
+  | k2 :: ks => by rw [lookupPath_cons_cons, lookupPath_cons_cons]; simp [KVs.lookup, h]
+
+/-- every leaf of `flatten [] m`: non-empty path that starts with a key of `m`, and `m` holds the leaf's value there -/
+theorem flatten_leaf : ∀ (m : KVs), HNK m → ∀ a ∈ flatten [] m,
+    ∃ k p, a.1 = k :: p ∧ k ∈ m.keys ∧ lookupPath a.1 m = some a.2
+  | .nil, _, a, ha => by simp [flatten] at ha
+  | .cons k v rest, hn, a, ha => by
+    simp only [HNK] at hn
+    rw [flatten_cons] at ha
+    rcases List.mem_append.1 ha with h1 | h2
+    · -- below k
+      have single : a = ([k], v) → ∃ k0 p, a.1 = k0 :: p ∧ k0 ∈ (KVs.cons k v rest).keys ∧
+          lookupPath a.1 (.cons k v rest) = some a.2 := by
+        rintro rfl
+        exact ⟨k, [], rfl, by simp [KVs.keys], by simp [lookupPath, KVs.lookup]⟩
+      cases v with
+      | map sub =>
+        simp only [leavesOf] at h1
+        by_cases he : sub.isEmpty = true
+        · simp only [he, if_true, List.nil_append, List.mem_singleton] at h1
+          exact single h1
+        · simp only [he] at h1
+          rw [flatten_pfx sub ([] ++ [k])] at h1
+          obtain ⟨b, hb, rfl⟩ := List.mem_map.1 h1
+          have hsub : HNK sub := by simpa [HN] using hn.2.1
+          obtain ⟨k1, p1, hp1, -, hl⟩ := flatten_leaf sub hsub b hb
+          refine ⟨k, b.1, by simp, by simp [KVs.keys], ?_⟩
+          simp only [List.nil_append, List.singleton_append]
+          rw [lookupPath_cons_head, hp1]
+          simp only
+          rw [← hp1]; exact hl
+      | _ =>
+        simp only [leavesOf, List.nil_append, List.mem_singleton] at h1
+        exact single h1
+    · obtain ⟨k1, p1, hp1, hk1, hl⟩ := flatten_leaf rest hn.2.2 a h2
+      have hne : k ≠ k1 := fun e => hn.1 (e ▸ hk1)
+      refine ⟨k1, p1, hp1, by simp [KVs.keys, hk1], ?_⟩
+      rw [hp1, lookupPath_cons_skip hne, ← hp1]; exact hl
+
+/-- the leaf paths of `flatten [] m` are pairwise prefix-incomparable -/
+theorem flatten_pairwise : ∀ (m : KVs), HNK m → (flatten [] m).Pairwise (fun a b => Incomp a.1 b.1)
+  | .nil, _ => by simp [flatten]
+  | .cons k v rest, hn => by
+    have hn' := hn
+    simp only [HNK] at hn
+    rw [flatten_cons, List.pairwise_append]
+    have hhead : ∀ a ∈ leavesOf [] k v, ∃ p, a.1 = k :: p := by
+      intro a ha
+      cases v with
+      | map sub =>
+        simp only [leavesOf] at ha
+        by_cases he : sub.isEmpty = true
+        · simp only [he, if_true, List.nil_append, List.mem_singleton] at ha; exact ⟨[], by rw [ha]⟩
+        · simp only [he] at ha
+          rw [flatten_pfx sub ([] ++ [k])] at ha
+          obtain ⟨b, -, rfl⟩ := List.mem_map.1 ha
+          exact ⟨b.1, by simp⟩
+      | _ =>
+        simp only [leavesOf, List.nil_append, List.mem_singleton] at ha; exact ⟨[], by rw [ha]⟩
+    refine ⟨?_, flatten_pairwise rest hn.2.2, ?_⟩
+    · cases v with
+      | map sub =>
+        simp only [leavesOf]
+        by_cases he : sub.isEmpty = true
+        · simp [he]
+        · simp only [he, Bool.false_eq_true, if_false]
+          rw [flatten_pfx sub ([] ++ [k]), List.pairwise_map]
+          have hsub : HNK sub := by simpa [HN] using hn.2.1
+          refine (flatten_pairwise sub hsub).imp ?_
+          intro a b hab
+          simpa using incomp_cons_iff (k := k) hab
+      | _ => simp [leavesOf]
+    · intro a ha b hb
+      obtain ⟨p, hp⟩ := hhead a ha
+      obtain ⟨k1, p1, hp1, hk1, -⟩ := flatten_leaf rest hn.2.2 b hb
+      have hne : k ≠ k1 := fun e => hn.1 (e ▸ hk1)
+      rw [hp, hp1]; exact incomp_of_head_ne hne
+
+/-! ## the round trip, and `resolve` end to end -/
+
+theorem pointwise_transfer (env : Env) : ∀ (ls out : List Leaf),
+    Pointwise (fun l o => o.1 = l.1 ∧ resolveValue env l.2 = .ok o.2) ls out →
+    (∀ o ∈ out, ∃ l ∈ ls, o.1 = l.1) ∧ (∀ l ∈ ls, ∃ o ∈ out, o.1 = l.1 ∧ resolveValue env l.2 = .ok o.2)
+  | _, _, .nil => ⟨by simp, by simp⟩
+  | _, _, .cons (a := l) (b := o) (as := ls) (bs := out) h rest => by
+    obtain ⟨h1, h2⟩ := pointwise_transfer env ls out rest
+    constructor
+    · intro o' ho'
+      rcases List.mem_cons.1 ho' with rfl | ho'
+      · exact ⟨l, List.mem_cons_self .., h.1⟩
+      · obtain ⟨l', hl', e⟩ := h1 o' ho'; exact ⟨l', List.mem_cons_of_mem _ hl', e⟩
+    · intro l' hl'
+      rcases List.mem_cons.1 hl' with rfl | hl'
+      · exact ⟨o, List.mem_cons_self .., h.1, h.2⟩
+      · obtain ⟨o', ho', e⟩ := h2 l' hl'; exact ⟨o', List.mem_cons_of_mem _ ho', e⟩
+
+theorem pointwise_pairwise (env : Env) : ∀ (ls out : List Leaf),
+    Pointwise (fun l o => o.1 = l.1 ∧ resolveValue env l.2 = .ok o.2) ls out →
+    ls.Pairwise (fun a b => Incomp a.1 b.1) → out.Pairwise (fun a b => Incomp a.1 b.1)
+  | _, _, .nil, _ => .nil
+  | _, _, .cons (a := l) (b := o) (as := ls) (bs := out) h rest, hpw => by
+    rw [List.pairwise_cons] at hpw ⊢
+    refine ⟨?_, pointwise_pairwise env ls out rest hpw.2⟩
+    intro o' ho'
+    obtain ⟨l', hl', e⟩ := (pointwise_transfer env ls out rest).1 o' ho'
+    rw [h.1, e]; exact hpw.1 l' hl'
+
+/-! ## unique keys are preserved by the merge -/
+
+theorem mem_keys_set {k k0 : Str} (v : Val) : ∀ m : KVs, k0 ∈ (m.set k v).keys → k0 = k ∨ k0 ∈ m.keys
+  | .nil, h => by simp [KVs.set, KVs.keys] at h; exact Or.inl h
+  | .cons k' v' r, h => by
+    by_cases hk : k' = k
+    · simp only [KVs.set, hk, if_true, KVs.keys] at h ⊢
+      right; simpa [hk] using h
+    · simp only [KVs.set, hk, if_false, KVs.keys, List.mem_cons] at h ⊢
+      rcases h with h | h
+      · exact Or.inr (Or.inl h)
+      · rcases mem_keys_set v r h with h | h
+        · exact Or.inl h
+        · exact Or.inr (Or.inr h)
+
+theorem HNK_set {k : Str} {v : Val} (hv : HN v) : ∀ m : KVs, HNK m → HNK (m.set k v)
+  | .nil, _ => by simp [KVs.set, HNK, KVs.keys, hv]
+  | .cons k' v' r, h => by
+    simp only [HNK] at h
+    by_cases hk : k' = k
+    · simp only [KVs.set, hk, if_true, HNK]
+      exact ⟨by simpa [hk] using h.1, hv, h.2.2⟩
+    · simp only [KVs.set, hk, if_false, HNK]
+      refine ⟨?_, h.2.1, HNK_set hv r h.2.2⟩
+      intro hmem
+      rcases mem_keys_set v r hmem with e | e
+      · exact hk e
+      · exact h.1 e
+
+theorem HN_of_lookup {k : Str} {v : Val} : ∀ m : KVs, HNK m → m.lookup k = some v → HN v
+  | .nil, _, h => by simp [KVs.lookup] at h
+  | .cons k' v' r, hn, h => by
+    simp only [HNK] at hn
+    by_cases hk : k' = k
+    · simp only [KVs.lookup, hk, if_true, Option.some.injEq] at h; rw [← h]; exact hn.2.1
+    · simp only [KVs.lookup, hk, if_false] at h; exact HN_of_lookup r hn.2.2 h
+
+theorem HNK_merge : ∀ (a b : KVs), HNK a → HNK b → HNK (mergeKVs a b)
+  | .nil, b, _, hb => by simpa [mergeKVs] using hb
+  | .cons k v rest, b, ha, hb => by
+    simp only [HNK] at ha
+    rw [mergeKVs_cons]
+    refine HNK_merge rest _ ha.2.2 (HNK_set ?_ b hb)
+    cases hl : b.lookup k with
+    | none => cases v <;> simp only [mergeOne] <;> exact ha.2.1
+    | some bv =>
+      have hbv := HN_of_lookup b hb hl
+      cases v with
+      | map am =>
+        cases bv with
+        | map bm =>
+          simp only [mergeOne, HN]
+          exact HNK_merge am bm (by simpa [HN] using ha.2.1) (by simpa [HN] using hbv)
+        | _ => simp only [mergeOne]; exact ha.2.1
+      | _ => simp only [mergeOne]; exact ha.2.1
+
+theorem HNK_mergeSources (ms : List KVs) (h : ∀ s ∈ ms, HNK s) : HNK (mergeSources ms) := by
+  have gen : ∀ (l : List KVs) (acc : KVs), HNK acc → (∀ s ∈ l, HNK s) →
+      HNK (l.foldl (fun acc s => mergeKVs s acc) acc) := by
+    intro l
+    induction l with
+    | nil => intro acc ha _; exact ha
+    | cons s l ih =>
+      intro acc ha hl
+      exact ih _ (HNK_merge s acc (hl s (List.mem_cons_self ..)) ha) (fun x hx => hl x (List.mem_cons_of_mem _ hx))
+  exact gen ms .nil trivial h
+
 end OtelVerif.C12
